@@ -97,6 +97,14 @@ CHECKS.update({
                  "parents; a copy from a work list to the output without that classification moves at most 5 cells (R-FAMILY).",
                  "losslessness / canonicity / order independence of compactCells as a whole (contents of the hash set after a round: runtime data structure).",
                  "R-BW " + BW + "; R-GUARD " + G + "; " + BP + "; R-DRAIN; R-SIB hash-probe modulus; R-ERRFLOW; R-FAMILY counter-site exploration over LLVM IR"),
+ "C07": _partial("C07", "the soundness half of the membership clause as far as it is visible in the shape of the code - nothing is emitted untested: polygonToCells stores a cell into out "
+                 "only on the success edge of pointInsidePolygon applied to the polygon parameter, the bounding boxes filled from it and the centre (cellToLatLng) of that very cell, into the "
+                 "probed slot that does not hold the cell yet; iterStepPolygonCompact (behind polygonToCellsExperimental), explored with the containment mode fixed, emits a cell in mode "
+                 "CENTER only through the centre test of that cell or the inside test of the box covering all its descendants (in mode FULL: boundary-inside test or the latter); the "
+                 "hole / bounding-box pairing convention of pointInsidePolygon's callers; failing callees make both entry points fail.",
+                 "completeness (every cell whose centre is inside is found: flood fill / hierarchy descent), the geometry of the tests themselves (floating-point ray casting, antimeridian "
+                 "handling, bounding boxes covering a cell and its descendants), absence of duplicates beyond the slot test, and the size clause (rests on a floating-point estimate).",
+                 "R-GATE must-pass-through (edge dominance + argument binding) and mode-reachability exploration over LLVM IR; R-SIB sibling-call agreement; R-ERRFLOW"),
  "C08": _partial("C08", "face adjacency/rotation tables are mutual inverses (T5), overage tables (T9), substrate vertex tables are closed ccw rings and the pentagon ones are their "
                  "first five rows (T13); cellAreaKm2 = Rads2*R^2, cellAreaM2 = Km2*10^6; cellAreaRads2 adds one triangle per side (i, (i+1) mod numVerts) of the boundary ring, "
                  "every side once, accumulator from 0.0 (R-FOLD).",
@@ -155,9 +163,6 @@ CHECKS.update({
 })
 
 NA = {
- "C07": "membership of a cell is decided by floating-point ray casting against arbitrary caller polygons plus a data-dependent flood fill; "
-        "no clause about which cells are returned is visible in the shape of the code, and the size clause rests on a floating-point value fact "
-        "(ceil of an estimate being positive) that no static argument in reach establishes (DESIGN.md 3 C07, 6)",
 }
 
 ALL = ["C%02d" % i for i in range(1, 21)]
